@@ -39,3 +39,69 @@ def hdr_len(b):
 @spec
 def hdr_check(b):
     return b[20:24]
+
+
+# ---- executable reference of the payloads (Bitcoin P2P protocol documentation), for the bounded unit ----------
+def _cs(n):
+    if n < 0xfd:
+        return bytes([n])
+    if n <= 0xffff:
+        return b'\xfd' + n.to_bytes(2, 'little')
+    if n <= 0xffffffff:
+        return b'\xfe' + n.to_bytes(4, 'little')
+    return b'\xff' + n.to_bytes(8, 'little')
+
+
+def _ip16(text):
+    import ipaddress
+    a = ipaddress.ip_address(text)
+    if a.version == 4:
+        return b'\x00' * 10 + b'\xff\xff' + a.packed
+    return a.packed
+
+
+def _netaddr(a, with_time):
+    """network address: [time u32] services u64, 16-byte IPv6 / IPv4-mapped address, port in NETWORK byte order"""
+    out = (a.nTime & 0xffffffff).to_bytes(4, 'little') if with_time else b''
+    return out + a.nServices.to_bytes(8, 'little') + _ip16(a.ip) + a.port.to_bytes(2, 'big')
+
+
+def ref_payload(m):
+    """payload bytes the protocol prescribes for message object m, or None where this reference does not cover
+    the type (alert) or the version (version messages below 70001, whose relay flag the protocol does not carry)"""
+    c = bytes(m.command)
+    if c in (b'verack', b'getaddr', b'mempool'):
+        return b''
+    if c in (b'ping', b'pong'):
+        return m.nonce.to_bytes(8, 'little')
+    if c == b'version':
+        if m.nVersion < 70001:
+            return None
+        return ((m.nVersion & 0xffffffff).to_bytes(4, 'little') + m.nServices.to_bytes(8, 'little')
+                + (m.nTime & (2**64 - 1)).to_bytes(8, 'little') + _netaddr(m.addrTo, False) + _netaddr(m.addrFrom, False)
+                + m.nNonce.to_bytes(8, 'little') + _cs(len(m.strSubVer)) + bytes(m.strSubVer)
+                + (m.nStartingHeight & 0xffffffff).to_bytes(4, 'little') + bytes([1 if m.fRelay else 0]))
+    if c == b'addr':
+        return _cs(len(m.addrs)) + b''.join(_netaddr(a, True) for a in m.addrs)
+    if c in (b'inv', b'getdata', b'notfound'):
+        return _cs(len(m.inv)) + b''.join(i.type.to_bytes(4, 'little') + bytes(i.hash) for i in m.inv)
+    if c in (b'getblocks', b'getheaders'):
+        return ((m.locator.nVersion & 0xffffffff).to_bytes(4, 'little') + _cs(len(m.locator.vHave))
+                + b''.join(bytes(h) for h in m.locator.vHave) + bytes(m.hashstop))
+    if c == b'headers':
+        from specs.wire import enc_header
+        return _cs(len(m.headers)) + b''.join(enc_header(h) + b'\x00' for h in m.headers)
+    if c == b'tx':
+        from specs.wire import enc_tx
+        return enc_tx(m.tx, True)
+    if c == b'block':
+        from specs.wire import enc_block
+        return enc_block(m.block, True)
+    if c == b'reject':
+        return _cs(len(m.message)) + bytes(m.message) + bytes(m.ccode) + _cs(len(m.reason)) + bytes(m.reason)
+    return None
+
+
+def payload_as_prescribed(m, payload):
+    want = ref_payload(m)
+    return want is None or bytes(payload) == want
